@@ -3,4 +3,4 @@ import vlib
 def setup():
     here = os.path.dirname(os.path.abspath(__file__))
     vlib.build_ocaml_driver("c17_driver", os.path.join(vlib.COQ, "extracted"),
-                            os.path.join(here, "driver", "c17_driver.ml"), only=["c17_model"])
+                            os.path.join(here, "driver", "c17_driver.ml"), only=["c17_model", "c17_float"])
